@@ -54,12 +54,15 @@ Final == /\ IsEvent("Final")
          /\ Imp("C10", \A c \in DOMAIN st : st[c].closes = 1 /\ st[c].sending = 0)
          /\ UNCHANGED st
 
-Other == /\ l <= Len(Trace) /\ Ev.ev \notin {"Reset", "SB", "SE", "RB", "RE", "CB", "CE", "Send", "Final", "Crash", "Deadlock", "Leak"}
+\* the bytes of a message stay what they were when they were passed to Send (a channel may hand them on uncopied)
+BufferReused == /\ l <= Len(Trace) /\ Ev.ev = "BufferReused" /\ "C10" \notin Enforce /\ "C13" \notin Enforce
+                /\ l' = l + 1 /\ UNCHANGED st
+Other == /\ l <= Len(Trace) /\ Ev.ev \notin {"Reset", "SB", "SE", "RB", "RE", "CB", "CE", "Send", "Final", "Crash", "Deadlock", "Leak", "BufferReused"}
          /\ l' = l + 1 /\ UNCHANGED st
 Terminal == /\ l <= Len(Trace) /\ Ev.ev \in {"Crash", "Deadlock", "Leak"} /\ "C10" \notin Enforce
             /\ l' = l + 1 /\ UNCHANGED st
 
-Next == Reset \/ SB \/ SE \/ RB \/ RE \/ CB \/ CE \/ Send \/ Final \/ Other \/ Terminal
+Next == Reset \/ SB \/ SE \/ RB \/ RE \/ CB \/ CE \/ Send \/ Final \/ Other \/ Terminal \/ BufferReused
 Spec == Init /\ [][Next]_vars
 ASSUME TLCSet(1, 0)
 Track == TLCSet(1, IF TLCGet(1) < l THEN l ELSE TLCGet(1))
